@@ -71,7 +71,8 @@ type ReaderSpec struct {
 // Case is one element of the enumerated space; check(Case) is a pure function of it
 // (up to Go's map iteration order inside the client, which the oracle does not depend on).
 type Case struct {
-	Payload string      `json:"payload"`          // nil|value|reader|form|sequence
+	Payload string      `json:"payload"`          // nil|value|reader|form|sequence|ladder
+	Ladder  *LadderSpec `json:"ladder,omitempty"` // payload == ladder: one rung of the size ladder (ladder.go)
 	Seq     *SeqSpec    `json:"seq,omitempty"`    // payload == sequence: adaptive multipart sequence (sequence.go)
 	Media   string      `json:"media"`            // the single entry of ConsumesMediaTypes
 	Value   string      `json:"value,omitempty"`  // value id, see values
